@@ -177,7 +177,11 @@ func (c *Compiler) HandleDynamicVar(v ast.Var, dir string, e []string) (string, 
 
 	// The result of a command depends on the directory and the environment
 	// it runs in, not only on its text.
-	cacheKey := strings.Join(append([]string{*v.Sh, dir}, e...), "\x00")
+	// (the environment list is assembled from a map: sort it, so that equal
+	// environments give equal keys)
+	sortedEnv := slices.Clone(e)
+	slices.Sort(sortedEnv)
+	cacheKey := strings.Join(append([]string{*v.Sh, dir}, sortedEnv...), "\x00")
 	if result, ok := c.dynamicCache[cacheKey]; ok {
 		return result, nil
 	}
